@@ -2,7 +2,7 @@
     both layouts, run at exact rationals) and its extraction.
     ExtrOcamlBasic only: Z, positive, Q, nat stay inductive.
     The dispatcher is shared verbatim between ExC01.v and ExC09.v. *)
-From Dino Require Import Base.Ops Base.Sums Model.SHT Model.SHTFast Gen.GridTable Extract.Common.
+From Dino Require Import Base.Ops Base.Sums Model.SHT Model.SHTFast Model.FourierR Gen.GridTable Extract.Common.
 Require Extraction.
 Require Import ExtrOcamlBasic.
 
@@ -89,6 +89,14 @@ Definition run_C01 (cmd : Z) (ints : list Z) (arrs : list (list Q)) : option (li
   | 20%Z => (* the factory table *)
       Some (concat (map (fun g => let '(tl, mw, gn) := g in [qofb tl; qofn mw; qofn gn]) grid_table))
   | 21%Z => Some [CONSTANT_NORMALIZATION_FACTOR_Q]
+  | 22%Z => (* fourier.real_basis closed form on given cos/sin tables: ints M I; arrs [sqrt(2pi), sqrt(pi)], c (M x I), s (M x I) *)
+      let M := intn ints 0 in let I := intn ints 1 in
+      let c := arr2 M I (arr arrs 1) in let s := arr2 M I (arr arrs 2) in
+      Some (tab2 I (2 * M - 1) (real_basis_g (scalar arrs 0 0) (scalar arrs 0 1) c s))
+  | 23%Z => (* fourier.real_basis_with_zero_imag closed form *)
+      let M := intn ints 0 in let I := intn ints 1 in
+      let c := arr2 M I (arr arrs 1) in let s := arr2 M I (arr arrs 2) in
+      Some (tab2 I (2 * M) (real_basis_zi_g (scalar arrs 0 0) (scalar arrs 0 1) c s))
   | _ => None
   end.
 
